@@ -306,6 +306,18 @@ class KeyValuePairNode(ContainerNode):
         return f"{self.key!s}: {self.value!s}"
 
 
+def _hashable(obj):
+    """Makes the plain value of a node usable as a member of a set or as a key of a dict.
+
+    A tuple is built into a :class:`ListNode`, whose plain value is a (unhashable) :class:`list`. Where the tuple was a
+    member of a set or a key of a dict, it has to be read back as a tuple.
+
+    """
+    if isinstance(obj, list):
+        return tuple(_hashable(o) for o in obj)
+    return obj
+
+
 class ListNode(SequenceNode[Tuple[T, ...]], Generic[T]):
     """A node containing an ordered sequence of nodes."""
 
@@ -382,7 +394,7 @@ class MultiSetNode(SequenceNode[HashableCounter[T]], Generic[T]):
         return self.__class__(children, auto_match_keys=self.auto_match_keys)
 
     def to_obj(self):
-        return HashableCounter(n.to_obj() for n in self)
+        return HashableCounter(_hashable(n.to_obj()) for n in self)
 
     @property
     def container_type(self) -> Type[HashableCounter[T]]:
@@ -435,7 +447,7 @@ class MappingNode(ContainerNode, ABC):
 
     def to_obj(self) -> Dict[Any, Any]:
         return {
-            k.to_obj(): v.to_obj() for k, v in self.items()
+            _hashable(k.to_obj()): v.to_obj() for k, v in self.items()
         }
 
     def print_parent_context(self, printer: Printer, for_child: "TreeNode"):
